@@ -8,7 +8,7 @@ import zlib
 from . import mserver, proto
 
 CLASSES = ["arbitrary", "truncate", "rdlen_lie", "huge_rdata", "many_records", "bad_prefs", "txt_chunks", "name_tricks",
-           "codec_letters", "empty", "boundary_payload", "step_payload", "counts_lie", "wrong_type", "rcode", "zlib", "raw"]
+           "codec_letters", "empty", "boundary_payload", "step_payload", "counts_lie", "wrong_type", "rcode", "zlib", "raw", "frag_flood"]
 
 
 def rb(rng, n):
@@ -90,8 +90,13 @@ def gen(rng, q, cls, step, ctx):
         t = qt if qt in (proto.T_MX, proto.T_SRV) else rng.choice([proto.T_MX, proto.T_SRV])
         n = rng.choice([1, 2, 10, 249, 250, 251, 255, 300]) if cls == "many_records" else rng.choice([3, 10, 40])
         rrs = []
+        tidy = rng.random() < 0.5        # every record present, short and non-empty: the decoder's table gets filled completely
         for i in range(n):
             pref = 10 * (i + 1)
+            if tidy and cls == "many_records":
+                nm = host_name(rng, rng.choice([5, 6, 12]))
+                rrs.append(rr(PTR, t, (struct.pack(">H", pref) if t == proto.T_MX else struct.pack(">HHH", pref, 0, 5060)) + nm))
+                continue
             if cls == "bad_prefs":
                 pref = rng.choice([0, 1, 5, 9, 10, 10, 11, 15, 20, 25, 2490, 2499, 2500, 2501, 2510, 65535, 10 * (n - i), 10 * (i + 2)])
             nm = host_name(rng, rng.choice([5, 8, 100, 250, 253]))
@@ -202,6 +207,25 @@ def gen(rng, q, cls, step, ctx):
             return mserver.build_answer(q, hdr + body, down if qt not in (proto.T_NULL, proto.T_PRIVATE) else "T")
         except ValueError:
             return answer(q, [rr(PTR, qt, hdr + body)])
+    if cls == "frag_flood":
+        # a coherent stream of non-final fragments of one downstream packet, each as large as the answer format
+        # allows: the reassembly buffer must not overflow however many arrive
+        ff = ctx.setdefault("ff", {"seq": rng.randrange(8), "frag": 0})
+        if ff["frag"] > 15 or rng.random() < 0.05:
+            ff["seq"] = (ff["seq"] + 1) & 7
+            ff["frag"] = 0
+        n = rng.choice([4094, 30000, 33000, 60000]) if qt in (proto.T_MX, proto.T_SRV) else rng.choice([1000, 4094])
+        hdr = bytes([0x80 | ((ctx.get("up_seq", 0) & 7) << 4), (ff["seq"] << 5) | (ff["frag"] << 1)])
+        ff["frag"] += 1
+        while True:
+            body = hdr + bytes([0x5a]) * n
+            try:
+                d = mserver.build_answer(q, body, down if qt not in (proto.T_NULL, proto.T_PRIVATE) else "T")
+            except ValueError:
+                return answer(q, [rr(PTR, qt, body[:4096])])
+            if len(d) <= 65000 or n < 2000:
+                return d
+            n = n * 3 // 4
     if cls == "raw":
         cmd = rng.choice([0x10, 0x20, 0x30, 0x00, 0x40, 0xF0])
         n = rng.choice([0, 1, 2, 12, 15, 16, 17, 100, 1200, 4096, 9000, 65000])
